@@ -28,7 +28,7 @@ var (
 var c15Inspecting = []string{"generate", "generate-stdin", "generate-missing", "compare", "compare-all", "compare-all-github", "compare-github", "format-check", "format-check-all", "format-check-all-github",
 	"renumber-check", "renumber-check-all", "renumber-check-all-github", "version", "completion-bash", "completion-zsh", "completion-fish", "completion-powershell", "help", "regex-help", "copyright-noversion", "copyright-badversion", "update-badarg", "format-missing",
 	"format-check-missing-rule", "format-check-missing-chain", "format-check-missing-include", "renumber-decoy-orig", "renumber-decoy-txt", "renumber-decoy-readme", "renumber-check-decoy", "compare-missing", "update-missing-assembly"}
-var c15Rewriting = []string{"format", "format-include", "format-all", "update", "update-all", "renumber", "renumber-all", "copyright"}
+var c15Rewriting = []string{"format", "format-include", "format-all", "update", "update-all", "renumber", "renumber-all", "copyright", "update-decoy-sorts-first", "update-all-decoy-sorts-first"}
 
 func c15Check(env *core.Env, cc core.Case) core.Verdict {
 	c := cc.(*c15Case)
@@ -136,6 +136,26 @@ func c15Check(env *core.Env, cc core.Case) core.Verdict {
 	case "update":
 		args = []string{"regex", "update", t0.Key}
 		allowed = func(rel string) bool { return rel == t0.File.path() }
+	case "update-decoy-sorts-first", "update-all-decoy-sorts-first":
+		// a backup copy of the rules file that matches the same glob and sorts in front of it: whatever update decides
+		// (the two candidates are ambiguous), the copy is not a target
+		copyName := "rules/" + []string{"REQUEST-" + t0.File.prefix() + "-APPLICATION-ATTACK.bak", ".REQUEST-" + t0.File.prefix() + "-X.conf.swp", "#REQUEST-" + t0.File.prefix() + "-X.conf#"}[len(targets)%3]
+		content, _ := sut.Read(root, t0.File.path())
+		if err := (sut.Tree{copyName: content}).Write(root); err != nil {
+			return core.Incon("cannot write decoy: %v", err)
+		}
+		args = []string{"regex", "update", t0.Key}
+		if c.Cmd == "update-all-decoy-sorts-first" {
+			args = []string{"regex", "update", "--all"}
+		}
+		allowed = func(rel string) bool {
+			for _, t := range targets {
+				if rel == t.File.path() {
+					return true
+				}
+			}
+			return false
+		}
 	case "update-all":
 		args = []string{"regex", "update", "--all"}
 		allowed = func(rel string) bool {
@@ -232,7 +252,7 @@ func init() {
 	register(&core.Property{
 		ID:    "C15",
 		Level: "exploration",
-		Rule: "generated CRS trees (1..3 rules files, assembly files with includes/definitions/stored names, test files, setup example) with ~25 decoys (near-miss extensions and names such as 932100.ra.bak, 9321000.yaml, 920110 without extension, *.conf~, notes.example.txt, README files containing marker text, and a sibling directory outside the root with rules/assembly/test files) x 33 inspecting command lines (generate file/stdin/missing, compare single/--all/github, format --check single/--all/github, renumber-tests --check single/--all/github, version, completion for 4 shells, help, failing invocations, --check and single-target runs on missing targets and on decoys that only resemble a target) and 8 rewriting ones (format single/include/--all, update single/--all, renumber-tests single/--all, update-copyright) x -d at the root or 1..2 levels below. Every run is traced with strace -f (file-related and attribute system calls). " +
+		Rule: "generated CRS trees (1..3 rules files, assembly files with includes/definitions/stored names, test files, setup example) with ~25 decoys (near-miss extensions and names such as 932100.ra.bak, 9321000.yaml, 920110 without extension, *.conf~, notes.example.txt, README files containing marker text, and a sibling directory outside the root with rules/assembly/test files) x 33 inspecting command lines (generate file/stdin/missing, compare single/--all/github, format --check single/--all/github, renumber-tests --check single/--all/github, version, completion for 4 shells, help, failing invocations, --check and single-target runs on missing targets and on decoys that only resemble a target) and 10 rewriting ones (format single/include/--all, update single/--all, the same with a backup copy of the rules file that matches the same glob and sorts in front of it, renumber-tests single/--all, update-copyright) x -d at the root or 1..2 levels below. Every run is traced with strace -f (file-related and attribute system calls). " +
 			"Oracle: inspecting commands perform no successful write-class system call (open for writing/creating, unlink, rename, mkdir, chmod, truncate, link ...; /dev/null excepted) and leave the sandbox snapshot (root plus outside sibling) identical; rewriting commands change only paths allowed by a path model written from the statement, perform no write-class call outside the root or on a pre-existing non-target. Non-trivial = every traced run; distinct by (tree, command, -d).",
 		Cases: func(env *core.Env, rng *rand.Rand) []core.Case {
 			trees := env.N(10, 80)
